@@ -255,6 +255,11 @@ int glob_files(fstree_t *fs, const char *filename, size_t line_num,
 	tree_node_t *root;
 	int ret;
 
+	/* a pack file name without a directory part and no --pack-dir:
+	   paths are relative to the current directory */
+	if (basepath == NULL)
+		basepath = ".";
+
 	/* fetch the actual target node */
 	root = fstree_get_node_by_path(fs, fs->root, ent->name, true, false);
 	if (root == NULL)
